@@ -927,7 +927,6 @@ impl RefRecord<'_> {
     pub fn seq_lines(&self) -> SeqLines {
         SeqLines {
             data: self.buffer,
-            len: self.buf_pos.seq_pos.len() - 1,
             pos_iter: self
                 .buf_pos
                 .seq_pos
@@ -994,7 +993,6 @@ impl RefRecord<'_> {
 /// Iterator over sequence the lines of a FASTA record.
 pub struct SeqLines<'a> {
     data: &'a [u8],
-    len: usize,
     pos_iter: iter::Zip<slice::Iter<'a, usize>, iter::Skip<slice::Iter<'a, usize>>>,
 }
 
@@ -1010,8 +1008,7 @@ impl<'a> Iterator for SeqLines<'a> {
 
     #[inline]
     fn size_hint(&self) -> (usize, Option<usize>) {
-        let l = self.len();
-        (l, Some(l))
+        self.pos_iter.size_hint()
     }
 }
 
@@ -1027,7 +1024,8 @@ impl<'a> DoubleEndedIterator for SeqLines<'a> {
 impl ExactSizeIterator for SeqLines<'_> {
     #[inline]
     fn len(&self) -> usize {
-        self.len
+        // number of remaining lines (not the total number)
+        self.pos_iter.len()
     }
 }
 
